@@ -15,7 +15,7 @@ CHECKS = {
    text="Each generated program (incl. import-heavy files aimed at map-iterating emitters) is analysed repeatedly within one process by long-lived and fresh checker sets; ordered diagnostics incl. fixes must be identical. Go randomises map iteration per loop, so order dependence shows up within a few repetitions.",
    note="In-process repetitions only in this check; cross-process equality is covered through the end-to-end checks (C08/C16) which compare binaries' output with in-process expectations.", ref="4/C02"),
  "C03": dict(level="exploration", technique="model-based stateful testing (rapid): generated visit histories on a long-lived checker set vs. fresh-instance reference model",
-   text="Generated histories of (package,file) visits drive one long-lived checker set exactly like the CLI; after every visit each checker's diagnostics must equal those of a freshly constructed instance on the same file.",
+   text="Generated histories of (package,file) visits (single visits in any order and file-order sweeps over packages whose kernel files are cut at declaration boundaries) drive one long-lived checker set exactly like the CLI; after every visit each checker's diagnostics must equal those of a freshly constructed instance on the same file.",
    note="Reference = fresh checker on the same AST objects; embedded-rule checkers are sampled per case (all 107 in 1 of 20 cases).", ref="4/C03"),
  "C05": dict(level="exploration", technique="property-based testing (rapid) + native fuzzing (FuzzSource, FuzzKernelBody): before/after structural fingerprint invariant per Check + order-permutation metamorphic relation",
    text="A reflective fingerprint of the syntax tree (all fields, positions, comments, object links, node identity), a digest of types.Info, the shared context and the registry is compared around every single Check under a random checker order; results must equal registry order on a pristine re-parse.",
@@ -29,8 +29,8 @@ CHECKS = {
  "C20": dict(level="exploration", technique="property-based testing (rapid) + native fuzzing (FuzzSource, FuzzKernelBody): namesake-injecting typed mutators (generated same-API user packages, generic builtin shadows, local shadows), re-analysis sessions, go/types resolution oracle over a subject table",
    text="Programs in which builtins and std packages are re-declared with compatible signatures at package, import and local scope; every diagnostic of an API-specific checker is judged by resolving the flagged reference with go/types. One case in ten re-analyses an edited file in a new session (same file name and byte offsets, the import swapped for a namesake, fresh file set / type information / checkers): nothing remembered from the first session may make the namesake reported. Thorough tier adds native coverage-guided fuzzing (go test -fuzz) with the same oracle; every fuzz finding is confirmed by a plain replay in a fresh process.",
    note="Subject table: hand-written checkers by hand, rule groups derived from the packages/builtins spelled in rules.go patterns; only reports are judged (a missed diagnostic is never a violation); types aliased to the real ones count as real.", ref="4/C20"),
- "C17": dict(level="exploration", technique="exhaustive enumeration with recomputation oracle (re-compile rule source in memory, structural comparison; registry/documentation bijections; source-vs-IR behavioural differential) + rapid-generated comparator self-test",
-   text="All rule groups, rules, registered checkers and documentation rows are enumerated completely; the shipped IR is compared with a fresh in-memory compilation of the rule source, embedded checkers with their groups, overview rows and `doc` output with the live registry and the default-selection rule, and the two engines (from source / from shipped IR) behaviourally over the example corpus.",
+ "C17": dict(level="exploration", technique="exhaustive enumeration with recomputation oracle (re-compile rule source in memory, structural comparison; registry/documentation bijections; registration histories in fresh processes against a two-state model; source-vs-IR behavioural differential) + rapid-generated comparator self-test",
+   text="All rule groups, rules, registered checkers and documentation rows are enumerated completely; the shipped IR is compared with a fresh in-memory compilation of the rule source, embedded checkers with their groups, overview rows and `doc` output with the live registry and the default-selection rule, 21 registration histories (list / construct checkers before and after the rule groups are loaded, each in a fresh process) with a model of what the registry must list, and the two engines (from source / from shipped IR) behaviourally over the example corpus.",
    note="The finite space is enumerated completely (exhaustive: true); irconv from the module cache is the compiler of record; the comparator is kept honest by random in-memory edits it must detect.", ref="4/C17"),
  "C18": dict(level="exploration", technique="model-based property testing (rapid): generated rule-file fault sequences x failOn x enable/disable lists against a reference model of the load policy and group algebra",
    text="Sequences of valid and faulty rule files (unreadable, syntax, DSL, import, empty), as lists or globs, under all failOn values, the legacy flag and enable/disable lists; the dynamic-rules checker is constructed and run in-process and compared with a reference model written from the statement (cells the statement leaves open accept both outcomes).",
@@ -39,7 +39,7 @@ CHECKS = {
    text="Generated module trees (several packages, in-package and external tests, per-file import tables, optionally a shared package whose types the other packages use) are analysed by go-critic, gocritic, go-critic-analysis and gocritic-analysis with an equivalent configuration; normalised diagnostic multisets must be equal and duplicate-free; the analyzer's offered checker list must equal the CLI's; quick fixes must be forwarded unchanged.",
    note="Binaries are rebuilt from /repo's working tree on every run; workspaces import the standard library only; body-less functions are excluded (they type-check but do not compile).", ref="4/C08"),
  "C16": dict(level="exploration", technique="property-based end-to-end testing (rapid): generated workspaces, path layouts and flags through the built CLIs against an in-process reference (exit status, location resolution, file filters)",
-   text="Workspaces in four path layouts (incl. the working directory's path occurring inside another path and a workspace under $GOPATH), ten header-comment variants on ordinary and test files, all exit codes and filter flags; exit status, printed locations (must resolve to real files) and the multiset of lines are compared with an in-process expectation for exactly the files that should be analysed.",
+   text="Workspaces in four path layouts (incl. the working directory's path occurring inside another path and a workspace under $GOPATH; directory names with %, unicode and punctuation), ten header-comment variants on ordinary and test files, all exit codes and filter flags; exit status, printed locations (must resolve to real files) and the multiset of lines are compared with an in-process expectation for exactly the files that should be analysed.",
    note="Generated status is decided by the Go convention (ast.IsGenerated semantics re-implemented by construction of the headers); expectation uses the spec's selection function.", ref="4/C16"),
  "C06": dict(level="exploration", technique="model-based property testing (rapid): generated enable/disable/tag lists through the built front-ends against an executable specification of the selection algebra; inert-parameter metamorphic check",
    text="Lists over all checker names, tags, unknown/empty/duplicate entries with a focus checker placed independently in each list by name and by tag; the enabled set printed by each front-end (-v / -debug-init) must equal the specification for all 107 checkers at once; empty selections must be errors; diagnostics must be attributed to selected checkers; parameters of unselected checkers (any registered parameter with a value of its type, bogus ruleguard rules/failOn) must be inert: initialisation succeeds and the run prints the same lines as without them; every registered parameter is a cell of its own (changing one never moves another); no-flag sets of all four binaries equal the default rule.",
@@ -47,11 +47,11 @@ CHECKS = {
  "C19": dict(level="exploration", technique="property-based fault injection (rapid) + native fuzzing of inputs that do not type-check (FuzzSource, FuzzKernelBody; in-process tolerant run as filter, real binary as judge): invalid configurations x front-ends x package counts, and workspaces with injected syntax/type/import faults, through the built binaries with a crash/hang/clean-failure oracle",
    text="Five classes of invalid configuration (11 malformed -go spellings, unknown failOn, unmatched rules patterns incl. after a matching one, empty selections, unparsable parameter values) on all four binaries over 1-3 packages must exit non-zero with a message naming the problem, no crash trace and no diagnostics; packages with 1-2 injected faults of 14 kinds (syntax damage, token drops, 15 ill-typed declaration snippets, import and package-clause faults) must never crash or hang any front-end. Thorough tier: byte-level mutants of the example corpus and kernels that do NOT type-check are run in-process with the tolerant loader; every in-process crash is replayed through the real binary, which decides.",
    note="Crash = panic/fatal/signal trace in the output; hang = not finished within 150 s twice; crash signatures carry the failing call site.", ref="4/C19"),
- "C14": dict(level="exploration", technique="property-based testing (rapid): boundary kernels of exact measure, threshold-pair monotonicity relation, compile-and-run size oracle (unsafe.Sizeof), CLI/analyzer-vs-in-process parameter plumbing differential",
-   text="For the seven numeric thresholds, constructs of exactly known measure are analysed at thresholds around the measure and must fire exactly at the documented boundary and once; on generated programs a relaxed threshold may never add diagnostics; byte sizes quoted by hugeParam equal unsafe.Sizeof of a compiled program over random struct types; parameter values given through CLI/analyzer flags behave like the in-process registry override; every registered parameter is a cell of its own.",
+ "C14": dict(level="exploration", technique="property-based testing (rapid): boundary kernels of exact measure, threshold-pair monotonicity relation, compile-and-run size oracle (unsafe.Sizeof), reference model of a boolean parameter (truncateCmp.skipArchDependent over plain/defined/alias operand types), CLI/analyzer-vs-in-process parameter plumbing differential",
+   text="For the seven numeric thresholds, constructs of exactly known measure are analysed at thresholds around the measure and must fire exactly at the documented boundary and once; on generated programs a relaxed threshold may never add diagnostics; byte sizes quoted by hugeParam equal unsafe.Sizeof of a compiled program over random struct types; truncateCmp.skipArchDependent removes exactly the comparisons whose operand has underlying type int/uint/uintptr however the type is written; parameter values given through CLI/analyzer flags behave like the in-process registry override; every registered parameter is a cell of its own.",
    note="Boundary direction is taken from the usage strings; unsafe.Sizeof of the local Go toolchain is the size reference.", ref="4/C14"),
  "C15": dict(level="exploration", technique="property-based testing (rapid): generated programs x target versions against an API-introduction index rebuilt from GOROOT/api; exhaustive grid check of the version parser/comparator",
-   text="Every std function/method/literal syntax recommended in a message or fix (and not quoted from the source) is looked up in GOROOT/api and must not be newer than the configured target (1.13..1.25, both spellings); no version behaves as the newest; the parser is compared with numeric ordering on the full 31x31 grid.",
+   text="Every std function/method/literal syntax recommended in a message or fix (called or merely named, and not quoted from the source) is looked up in GOROOT/api and must not be newer than the configured target (1.13..1.25, both spellings); no version behaves as the newest; the parser is compared with numeric ordering on the full 31x31 grid.",
    note="GOROOT/api is the reference; methods are looked up by the minimum version over receiver types (can only under-report).", ref="4/C15"),
  "C09": dict(level="exploration", technique="property-based testing (rapid) + native fuzzing (FuzzKernelBody): generated programs with marker statements; every machine fix and every recipe-matched quoted rewrite is applied and judged by parser, go/types, marker survival, type preservation and re-analysis",
    text="Over generated programs (kernels of every fix-carrying / code-quoting checker under mutations) each suggested replacement is substituted: it must parse in the replaced category, the file must parse and type-check, unrelated marker statements must survive, the replaced expression must keep its type, and re-analysis of the fixed file must not repeat the diagnostic.",
